@@ -6,8 +6,11 @@ Driver ops for the code-escaping model and the fenced-code model (C03).
 `fence.escape <str>`  → `FencedBlockPreprocessor._escape`                     (string)
 `fence.find <str>`    → `start|end|fence|attrs|lang|hl_lines|code` (groups as optional strings) or `none`
 `fence.run <str>`     → `newtext|stash-list`, `ood` (block with `{attrs}`) or `fuel`
+`fence.attrsend <str>` → `m.end('attrs')` of the first match when its `attrs` group is non-empty, else `none`
+`fence.runa <str>`    → the same with the `{attrs}` branch modelled (default configuration): never `ood`
 -/
 import MdVerif.Model.Ext.FencedCode
+import MdVerif.Model.Ext.FencedCodeAttrs
 import Driver.Proto
 
 namespace Driver
@@ -28,6 +31,16 @@ def codeHandler : Handler := fun op args =>
     | none => some "none"
   | "fence.run", [s] =>
     match Fenced.fencedRun (decStr s) with
+    | .ok t st => some (encStr t ++ "|" ++ encList st)
+    | .ood => some "ood"
+    | .fuel => some "fuel"
+  | "fence.attrsend", [s] =>
+    let t := decStr s
+    match Fenced.fenceFind t with
+    | some m => if (m.attrs.getD []).isEmpty then some "none" else some (toString (Fenced.attrsEnd t m (m.attrs.getD [])))
+    | none => some "none"
+  | "fence.runa", [s] =>
+    match Fenced.fencedRunA (decStr s) with
     | .ok t st => some (encStr t ++ "|" ++ encList st)
     | .ood => some "ood"
     | .fuel => some "fuel"
